@@ -169,7 +169,10 @@ impl FiberAio {
     /// Write data to file asynchronously
     pub async fn write_all<P: AsRef<Path>>(&self, path: P, data: &[u8]) -> Result<()> {
         let mut file = self.create(path).await?;
-        file.write_all(data).await
+        file.write_all(data).await?;
+        // tokio::fs::File writes in the background: without the flush the call returned before the
+        // bytes were in the file (a reader opening it right away saw a shorter file)
+        file.flush().await
     }
 
     /// Copy file asynchronously with optimized buffering
@@ -375,6 +378,9 @@ impl FiberFile {
             // Yield control to allow other fibers to run
             tokio::task::yield_now().await;
         }
+
+        // the last write may still be in flight (see FiberAio::write_all)
+        dst.flush().await?;
 
         Ok(total_copied)
     }
